@@ -3,7 +3,7 @@ NAMES = ["Host", "User-Agent", "Accept", "Accept-Encoding", "Accept-Language", "
          "Content-Type", "Content-Length", "Via", "X-Tag", "Cookie"]
 VALUES = ["example.com", "Mozilla/5.0 (X11; Linux) Firefox/10.0", "curl/7.81", "*/*", "gzip, deflate", "keep-alive", "close", "", "x", "a:b",
           "text/html", "0", "Apache/2.2", "nginx/1.2", "en-US,en;q=0.5", "MSIE 8.0", " padded ", "a  b",
-          "text/html ;q=0.9", "Mozilla/5.0 (KHTML, like Gecko) HeadlessChrome/41", "Mozilla/5.0 (KHTML, like Gecko) Chrome/41 Safari", "x ;y"]
+          "text/html ;q=0.9", "CURL/7.81", "apache/2.2", "mozilla/5.0 firefox/10.0", "Mozilla/5.0 (KHTML, like Gecko) HeadlessChrome/41", "Mozilla/5.0 (KHTML, like Gecko) Chrome/41 Safari", "x ;y"]
 
 
 def case_variant(R, name):
